@@ -332,6 +332,14 @@ def rank_disagreement(exe, lines):
 
 
 def classify_t2(res, what, exe, lines, d, ret_code_hist):
+    vh = D.violating_history(lines, lambda ls: run_impl(exe, ls), rank_oracle, budget=120)
+    if vh:
+        small, why = vh
+        rc, out_c, err = run_impl(exe, small)
+        res.violation("C17 violated by the implementation: " + why,
+                      {"correspondence": what, "ops": small, "disagreement": rank_disagreement(exe, small) or d,
+                       "impl_output": out_c[-40:], "oracle": why})
+        return
     small = D.ddmin(lines, lambda ls: rank_disagreement(exe, ls) is not None, budget=120)
     d2 = rank_disagreement(exe, small) or d
     rc, out_c, err = run_impl(exe, small)
